@@ -373,6 +373,11 @@ func runC06(p *Prog, r *Report, tier string) {
 
 	// ---- (6) deadline tests around the Pop
 	checkDeadlineTests(p, r, delFn)
+	checkRepushFuture(p, r)
+	// a flow is handed to the callback at its deadline only if it can become ready, and only if every record was applied
+	// (C07's rules on the per-record transition, imported)
+	checkReadyAtOnce(p, r, "R-GATE.ready-at-once")
+	checkSingleSuccessExit(p, r, "R-OWNER.every-record-applied")
 }
 
 func reachableBlock(from, to *ssa.BasicBlock) bool {
@@ -886,3 +891,75 @@ func guardSummary(in ssa.Instruction) string {
 }
 
 var _ = types.Typ
+
+// checkRepushFuture: "every flow still held is scheduled for a FUTURE expiry". When the scan puts a popped item back,
+// each of its two deadlines is either re-armed after the Pop (now + timeout) or known to lie after `now` on that path
+// (an After(now) test on the way). The push on the callback-failure path is exempt: there the flow is deliberately left
+// due, to be retried by the next scan. A deadline left in the past makes the same scan pop the flow again and again.
+func checkRepushFuture(p *Prog, r *Report) {
+	for _, f := range p.RepoFns {
+		if !keyInPkg(fnKey(f), "pkg/intermediate") {
+			continue
+		}
+		var pop *ssa.Call
+		eachInstr(f, func(in ssa.Instruction) {
+			if c, ok := isHeapCall(in, "Pop"); ok {
+				pop = c
+			}
+		})
+		if pop == nil {
+			continue
+		}
+		var item ssa.Value
+		for _, ref := range refs(pop) {
+			if ta, ok := ref.(*ssa.TypeAssert); ok {
+				item = ta
+			}
+		}
+		if item == nil {
+			continue
+		}
+		n := 0
+		eachInstr(f, func(in ssa.Instruction) {
+			ps, ok := isHeapCall(in, "Push")
+			if !ok || len(ps.Call.Args) != 2 || !sameItem(ps.Call.Args[1], item) {
+				return
+			}
+			// failure path: everything after the push returns an error
+			q := &pathQuery{discharge: func(x ssa.Instruction) bool { return isErrorReturn(x) }}
+			if _, reachesOther := q.find(in); !reachesOther {
+				return
+			}
+			n++
+			for _, fld := range []string{"activeExpireTime", "inactiveExpireTime"} {
+				ok := false
+				// re-armed between the Pop and this Push
+				eachInstr(f, func(x ssa.Instruction) {
+					st, isSt := x.(*ssa.Store)
+					if !isSt {
+						return
+					}
+					tn, fn, base, isF := fieldOf(st.Addr)
+					if isF && tn == "pkg/intermediate.ItemToExpire" && fn == fld && base == item && dominates(pop, x) && dominates(x, in) {
+						ok = true
+					}
+				})
+				// or known to be in the future on this path
+				for _, gd := range guardsOf(in.Block()) {
+					c, isC := gd.If.Cond.(*ssa.Call)
+					if !isC {
+						continue
+					}
+					name := calleeName(&c.Call)
+					tn, fn, base, isF := loadedField(c.Call.Args[0])
+					if name == "(time.Time).After" && gd.Succ == 0 && isF && tn == "pkg/intermediate.ItemToExpire" && fn == fld && base == item {
+						ok = true
+					}
+				}
+				r.Check(ok, "R-TYPESTATE.future", fmt.Sprintf("%s: re-push #%d of the popped item: %s lies in the future", fnKey(f), n, fld), p.instrPos(in),
+					"re-armed after the Pop, or tested After(now) on this path",
+					"the popped item is pushed back while its "+fld+" may already have passed: the same scan pops it again at once (the retry budget of a flow waiting for correlation is used up in one scan and the flow is dropped, or the flow is exported repeatedly)", true)
+			}
+		})
+	}
+}
